@@ -224,13 +224,19 @@ def _judge(res: core.Res, s: str, fmt: str, ptypes: bool) -> None:
                 # control characters are set aside by the HTML layer; compare modulo those
                 norm = lambda t: ''.join(c for c in t if c >= ' ' or c in '\n\t')  # noqa: E731
                 if norm(obj.docstring) not in [norm(x) for x in p.pre]:
-                    res.v('C08:fallback-text-differs', f'{kind} docstring {s[:80]!r} ({fmt}): gave up, but the page does not show the complete original text as plain text (shown: {[x[:80] for x in p.pre][:2]})', shown=p.pre[:2], **w2)
+                    # the failure was in the renderer (to_stan error "<ExceptionClass>: ...") of a *field body*: pydoctor shows
+                    # "Broken description" for that field and keeps the rest of the docstring
+                    import re as _re
+                    field_only = 'Broken description' in outs['docstring'] and not any(ev[0] == 'parser-gave-up' for ev in body_gave_up) and \
+                        all(_re.match(r'^\w+(Exception|Error): ', str(d)) for ev in body_gave_up if ev[0] == 'fatal-error' for d in ev[3])
+                    res.v('C08:field-body-failure-shows-broken-description' if field_only else 'C08:fallback-text-differs', f'{kind} docstring {s[:80]!r} ({fmt}): gave up, but the page does not show the complete original text as plain text (shown: {[x[:80] for x in p.pre][:2]})', shown=p.pre[:2], **w2)
     # recoverable problems must be reported (reference: the format's parser called directly)
     if fmt in ('restructuredtext', 'google', 'numpy'):
         from pydoctor.epydoc.markup import get_parser_by_name
         errs: List[Any] = []
         try:
-            get_parser_by_name(fmt, system.allobjects['fz.func'])(clean, errs)
+            # the text pydoctor holds for the object (lone surrogates are shown escaped since fix a0b48f2), not the raw literal
+            get_parser_by_name(fmt, system.allobjects['fz.func'])(system.allobjects['fz.func'].docstring or clean, errs)
         except Exception:  # noqa: BLE001
             errs = errs or ['raised']
         if errs:
